@@ -439,7 +439,7 @@ class RefOracle(Oracle):
             run.probes["nonfinite_state_skip"] += 1
             self.diverged = True
             return
-        exp = refmodel.expected_step(hp, t, pre["W"], pre["G"], pre["state"], post.inv)
+        exp = refmodel.expected_step(hp, t, pre["W"], pre["G"], pre["state"], post.inv, post.corrected)
         ctx = {"block": b.key, "param": b.param_index, "shape": list(b.block.shape)}
         fin = torch.finfo(pdt)
         hi, lo = math.sqrt(fin.max) * 1e-3, math.sqrt(fin.tiny) * 1e3
@@ -922,7 +922,7 @@ class NormTransferOracle(Oracle):
                 post = refmodel.read_block_state(run.opt.state[b.param][b.key])
                 if not all(refmodel.is_finite(x) for x in [pre["W"], pre["G"], *post.inv]):
                     continue
-                exp = refmodel.expected_step(hp, t, pre["W"], pre["G"], pre["state"], post.inv)
+                exp = refmodel.expected_step(hp, t, pre["W"], pre["G"], pre["state"], post.inv, post.corrected)
                 if exp.shampoo_direction is None:
                     continue
                 W_now = torch.take(b.param.detach().reshape(-1), b.idx).to(refmodel.F64)
